@@ -155,6 +155,7 @@ class Inliner:
     def __init__(self, tree):
         self.tree = tree
         self.counter = 0
+        self.expanded = {}
         self.helpers = {}       # name -> FunctionDef (module level, private)
         self.methods = {}       # (class name, method name) -> FunctionDef (private methods)
         for n in tree.body:
@@ -186,6 +187,7 @@ class Inliner:
         if b is None:
             return None
         self.counter += 1
+        self.expanded[id(fn)] = self.expanded.get(id(fn), 0) + 1
         tag = '__%s_%d' % (fn.name.strip('_'), self.counter)
         local = set()
         for s in stmts:
@@ -286,6 +288,31 @@ class Inliner:
         return prefix, new
 
 
+def _drop_dead_helpers(tree, inl):
+    """a private helper that was inlined at every use is no longer part of the program: remove its definition, so that who-may-write / purity rules
+    attribute its effects to the (inlined) call sites only"""
+    def refs(name, is_method, skip):
+        n = 0
+        for node in ast.walk(tree):
+            if node is skip:
+                continue
+            if not is_method and isinstance(node, ast.Name) and node.id == name:
+                n += 1
+            if is_method and isinstance(node, ast.Attribute) and node.attr == name:
+                n += 1
+        return n
+    for name, fn in list(inl.helpers.items()):
+        inner = sum(1 for x in ast.walk(fn) if isinstance(x, ast.Name) and x.id == name)
+        if inl.expanded.get(id(fn)) and refs(name, False, None) - inner == 0 and fn in tree.body:
+            tree.body.remove(fn)
+    for (cls, name), fn in list(inl.methods.items()):
+        inner = sum(1 for x in ast.walk(fn) if isinstance(x, ast.Attribute) and x.attr == name)
+        if inl.expanded.get(id(fn)) and refs(name, True, None) - inner == 0:
+            for c in tree.body:
+                if isinstance(c, ast.ClassDef) and c.name == cls and fn in c.body:
+                    c.body.remove(fn)
+
+
 def normalize_module(tree, modname):
     Spelling(methods=modname in KERNEL_MODULES).visit(tree)
     inl = Inliner(tree)
@@ -297,6 +324,8 @@ def normalize_module(tree, modname):
                 for m in n.body:
                     if isinstance(m, ast.FunctionDef):
                         inl.process_function(m, n.name)
+    if inl.helpers or inl.methods:
+        _drop_dead_helpers(tree, inl)
     IfAssign().visit(tree)         # after inlining: a helper `return a if c else b` is inlined as an expression first
     ast.fix_missing_locations(tree)
     return tree
